@@ -278,6 +278,9 @@ func vrtSched(ex *Exec, fn *ssa.Function, args []Value) []Value {
 	}
 	ex.schedOn = true
 	ex.schedBudget = int(k.k)
+	if ex.schedBudget > ex.schedMax {
+		ex.schedMax = ex.schedBudget
+	}
 	return nil
 }
 
